@@ -79,6 +79,25 @@ func (in *Interp) floorDiv(n, d *sym.Term) *sym.Term {
 	if n.IsConst() && d.IsConst() {
 		return f.Div(n, d)
 	}
+	// (x * d) / d = x
+	if n.Op == "*" && len(n.Args) == 2 {
+		if n.Args[1] == d && d.Lo != nil && d.Lo.Sign() > 0 {
+			return n.Args[0]
+		}
+		if n.Args[0] == d && d.Lo != nil && d.Lo.Sign() > 0 {
+			return n.Args[1]
+		}
+	}
+	ck := [2]int{n.ID(), d.ID()}
+	if q, ok := in.divCache[ck]; ok {
+		return q // the same division on this path: same quotient
+	}
+	defer func() {
+		if in.divCache == nil {
+			in.divCache = map[[2]int]*sym.Term{}
+		}
+		in.divCache[ck] = in.lastQ
+	}()
 	in.varSeq["$q"]++
 	k := in.varSeq["$q"]
 	var qlo, qhi *big.Int
@@ -89,6 +108,7 @@ func (in *Interp) floorDiv(n, d *sym.Term) *sym.Term {
 	r := f.Var(fmt.Sprintf("|$r%d|", k), sym.SInt, big.NewInt(0), nil)
 	in.assertPC(f.Eq(n, f.Add(f.Mul(q, d), r)))
 	in.assertPC(f.Lt(r, d))
+	in.lastQ = q
 	return q
 }
 
@@ -338,6 +358,41 @@ func registerNatives(ex *Explorer) {
 			in.fail("unsupported", "hex.EncodeToString of symbolic bytes")
 		}
 		return hex.EncodeToString(b)
+	}
+
+	I["bytes.Compare"] = func(in *Interp, fn *ssa.Function, a []Value) Value {
+		x, y := a[0].(SliceVal), a[1].(SliceVal)
+		n := x.Len
+		if y.Len < n {
+			n = y.Len
+		}
+		for i := 0; i < n; i++ {
+			bx, by := in.sget(x, i).(*sym.Term), in.sget(y, i).(*sym.Term)
+			if in.Branch(in.F.Lt(bx, by)) {
+				return in.F.Int(-1)
+			}
+			if in.Branch(in.F.Gt(bx, by)) {
+				return in.F.Int(1)
+			}
+		}
+		switch {
+		case x.Len < y.Len:
+			return in.F.Int(-1)
+		case x.Len > y.Len:
+			return in.F.Int(1)
+		}
+		return in.F.Int(0)
+	}
+	I["bytes.Equal"] = func(in *Interp, fn *ssa.Function, a []Value) Value {
+		x, y := a[0].(SliceVal), a[1].(SliceVal)
+		if x.Len != y.Len {
+			return in.F.False
+		}
+		var cs []*sym.Term
+		for i := 0; i < x.Len; i++ {
+			cs = append(cs, in.F.Eq(in.sget(x, i).(*sym.Term), in.sget(y, i).(*sym.Term)))
+		}
+		return in.F.And(cs...)
 	}
 
 	// ---------- sort ----------
